@@ -274,6 +274,31 @@ func runCase(t tcase) (result, []string) {
 	if res.Handler != 0 {
 		bad("Replay invoked subscribed handlers %d times", res.Handler)
 	}
+	// A second, fault-free replay on the same bus and store, after the log grew by one
+	// event: whatever the first one went through (a fault, a cancellation, an early exit),
+	// the next one delivers everything after the offset and returns nil. (Not on the
+	// durable-streams configurations, whose paging defects are recorded findings that a
+	// second replay would only show once more.)
+	if len(out) == 0 && cfg.Kind != "durable" && cfg.Kind != "durable-chunk1" {
+		fs.failAt = 0
+		if _, err := hd.Store.Append(bg, &eventbus.Event{Type: "t", Data: json.RawMessage(fmt.Sprintf(`{"i":%d}`, t.L+1)), Timestamp: time.Unix(int64(2000+t.L), 0).UTC()}); err != nil {
+			vrt.MachineryFault("append: %v", err)
+		}
+		var again []int
+		err2 := bus.Replay(bg, from, func(se *eventbus.StoredEvent) error {
+			var d struct{ I int }
+			json.Unmarshal(se.Data, &d)
+			again = append(again, d.I)
+			return nil
+		})
+		okSeq := len(again) == want+1
+		for i, d := range again {
+			okSeq = okSeq && d == t.Start+1+i
+		}
+		if err2 != nil || !okSeq {
+			bad("a second, fault-free Replay on the same bus after the log grew by one event delivered %v (err %v), want the %d events after the start offset in order", again, err2, want+1)
+		}
+	}
 	return res, out
 }
 
